@@ -41,6 +41,8 @@ DEFAULT_PROFILE = dict(
     p_yfactor=0.3,
     allow_derivative=False,
     p_limits=0.4,
+    p_targetable=0.0,
+    p_aggregation=0.25,
 )
 
 
@@ -449,6 +451,40 @@ def _gen_spec_once(rng, pf):
             forms.append("%s:flow" % pn[0])
         new_par("out", "number", function=_choice(rng, forms), db=False)
 
+    # --- cross-population aggregations ----------------------------------------------------------
+    interactions = []
+    if rng.random() < pf["p_aggregation"]:
+        use_inter = rng.random() < 0.7
+        if use_inter:
+            interactions.append({"name": "inter0"})
+        cands = [q["name"] for q in pars if not q["timed"] and q["function"] is None and q["format"] != "proportion"] + ords[:2]
+        if cands:
+            var = _choice(rng, cands)
+            fn = _choice(rng, ["SRC_POP_AVG", "SRC_POP_SUM", "TGT_POP_AVG", "TGT_POP_SUM"])
+            args = [var]
+            if use_inter:
+                args.append("inter0")
+                if rng.random() < 0.6:
+                    args.append(_choice(rng, ["alive", ords[0]]))
+            p = new_par("agg", _choice(rng, [None, "rate", "probability"]), function="%s(%s)" % (fn, ", ".join(args)), db=False)
+            if p["format"] is not None and n_ord >= 2:
+                # let the aggregated value drive a transition
+                a, b = ords[0], ords[1]
+                if (a, b) not in trans and all(a not in par_sources.get(x, set()) for x in [p["name"]]):
+                    add_edge(a, b, p["name"])
+
+    # --- targetable parameters ------------------------------------------------------------------
+    for p in pars:
+        if p["timed"] or p["name"].startswith(("out", "agg")):
+            continue
+        is_link = p["name"] in par_sources
+        if p["format"] == "number" and not is_link:
+            continue
+        if p["name"].startswith("birth"):
+            continue
+        if rng.random() < pf["p_targetable"]:
+            p["targetable"] = True
+
     # --- limits -------------------------------------------------------------------------------
     for p in pars:
         if p["timed"]:
@@ -521,7 +557,10 @@ def _gen_spec_once(rng, pf):
             if p["db"] and not p["timed"] and p["format"] != "duration" and rng.random() < 0.3:
                 yfactors[p["name"]] = {pop: _choice(rng, [0.3, 1.0, 2.5] if p["format"] == "proportion" else [0.0, 0.3, 1.0, 2.5]) for pop in pops}
 
+    for it in interactions:
+        it["entries"] = [[a, b, {"a": _choice(rng, [0.0, 1.0, 0.5, _f(rng.uniform(0, 3))])}] for a in pops for b in pops]
     spec = {
+        "interactions": interactions,
         "comps": comps,
         "characs": [{k: v for k, v in c.items() if k != "_flat"} for c in characs],
         "pars": pars,
@@ -721,3 +760,122 @@ def build_project(spec, fw=None, data=None):
 
 def rng_for(seed, prop_number, index):
     return np.random.default_rng([int(seed), int(prop_number), int(index)])
+
+
+# ----------------------------------------------------------------------------------------------
+# program sets and instructions
+# ----------------------------------------------------------------------------------------------
+
+
+def _series(rng, years, sampler, p_const=0.5):
+    if rng.random() < p_const:
+        return {"a": _f(sampler())}
+    k = int(rng.integers(1, min(4, len(years)) + 1))
+    ts = sorted(float(y) for y in rng.choice(years, size=k, replace=False))
+    return {"t": ts, "v": [_f(sampler()) for _ in ts]}
+
+
+def gen_progspec(rng, spec, n_progs=(1, 5)):
+    """Programs targeting the spec's targetable parameters.  Returns None if nothing is targetable."""
+    targetable = [p for p in spec["pars"] if p.get("targetable")]
+    if not targetable:
+        return None
+    pops = spec["pops"]
+    ords = [c["name"] for c in spec["comps"] if c["kind"] == "ord"]
+    years = spec["years"]
+    s = spec["settings"]
+    names = ["prog%d" % i for i in range(_r(rng, n_progs))]
+    programs = []
+    for n in names:
+        one_off = bool(rng.random() < 0.5)
+        pr = {
+            "name": n,
+            "target_pops": [str(x) for x in rng.permutation(pops)[: _r(rng, (1, len(pops)))]],
+            "target_comps": [str(x) for x in rng.permutation(ords)[: _r(rng, (1, min(3, len(ords))))]],
+            "one_off": one_off,
+            "unit_cost": _series(rng, years, lambda: 10 ** rng.uniform(-1, 3)),
+            "spend": _series(rng, years, lambda: (10 ** rng.uniform(0, 6)) * (rng.random() > 0.1)),
+            "capacity_constraint": None,
+            "saturation": None,
+        }
+        if rng.random() < 0.3:
+            pr["capacity_constraint"] = {"series": _series(rng, years, lambda: 10 ** rng.uniform(0, 4)), "units": "people/year" if rng.random() < 0.6 else "people"}
+        if rng.random() < 0.3:
+            pr["saturation"] = _series(rng, years, lambda: rng.uniform(0.1, 1.5), p_const=0.8)
+        programs.append(pr)
+    covouts = []
+    for p in targetable:
+        for pop in pops:
+            if rng.random() < 0.75:
+                progs = [str(x) for x in rng.permutation(names)[: _r(rng, (1, min(4, len(names))))]]
+                fmt = p["format"]
+                hi = {"number": 2.0, "duration": 5.0}.get(fmt, 1.0)
+                base = _f(rng.uniform(0, hi * 0.5))
+                outs = {q: _f(rng.uniform(0, hi)) for q in progs}
+                imp = None
+                if len(progs) >= 2 and rng.random() < 0.4:
+                    k = _r(rng, (2, len(progs)))
+                    combo = progs[:k]
+                    imp = "%s=%r" % ("+".join(combo), _f(rng.uniform(0, hi)))
+                covouts.append({"par": p["name"], "pop": pop, "progs": outs, "cov_interaction": _choice(rng, ["additive", "random", "nested"]), "imp_interaction": imp, "baseline": base})
+    if not covouts:
+        p = targetable[0]
+        covouts.append({"par": p["name"], "pop": pops[0], "progs": {names[0]: 0.5}, "cov_interaction": "additive", "imp_interaction": None, "baseline": 0.1})
+    # instructions
+    tgrid = s["start"] + s["dt"] * np.arange(0, max(1, int(round((s["end"] - s["start"]) / s["dt"]))) + 1)
+    u = rng.random()
+    if u < 0.3:
+        start = float(s["start"])
+    elif u < 0.7:
+        start = float(_choice(rng, list(tgrid)))
+    else:
+        start = float(s["start"] + rng.uniform(0, 1) * (s["end"] - s["start"]))
+    stop = None
+    if rng.random() < 0.3:
+        stop = float(start + rng.uniform(0, 1) * max(s["dt"], s["end"] - start))
+    ins = {"start": start, "stop": stop, "alloc": {}, "capacity": {}, "coverage": {}}
+    oyears = [float(y) for y in years] + [float(x) for x in tgrid[:: max(1, len(tgrid) // 4)]]
+    for n in names:
+        if rng.random() < 0.3:
+            ins["alloc"][n] = _series(rng, oyears, lambda: (10 ** rng.uniform(0, 6)) * (rng.random() > 0.1), p_const=0.0)
+        if rng.random() < 0.15:
+            ins["capacity"][n] = _series(rng, oyears, lambda: 10 ** rng.uniform(0, 4), p_const=0.0)
+        if rng.random() < 0.15:
+            ins["coverage"][n] = _series(rng, oyears, lambda: rng.uniform(0, 1.2), p_const=0.0)
+    return {"programs": programs, "covouts": covouts, "instructions": ins}
+
+
+def _ts(v, units=None):
+    import atomica as at
+
+    ts = at.TimeSeries(units=units)
+    fill_ts(ts, v)
+    return ts
+
+
+def build_progset(progspec, fw, data):
+    import atomica as at
+
+    ps = at.ProgramSet.new(name="generated", tvec=np.array(sorted(set(data.tvec))), progs={p["name"]: "Program " + p["name"] for p in progspec["programs"]}, framework=fw, data=data)
+    for p in progspec["programs"]:
+        prog = ps.programs[p["name"]]
+        prog.target_pops = list(p["target_pops"])
+        prog.target_comps = list(p["target_comps"])
+        prog.unit_cost = _ts(p["unit_cost"], "$/person (one-off)" if p["one_off"] else "$/person/year")
+        prog.spend_data = _ts(p["spend"], "$/year")
+        if p["capacity_constraint"]:
+            prog.capacity_constraint = _ts(p["capacity_constraint"]["series"], p["capacity_constraint"]["units"])
+        if p["saturation"]:
+            prog.saturation = _ts(p["saturation"], "N.A.")
+    for c in progspec["covouts"]:
+        ps.covouts[(c["par"], c["pop"])] = at.programs.Covout(par=c["par"], pop=c["pop"], progs=dict(c["progs"]), cov_interaction=c["cov_interaction"], imp_interaction=c["imp_interaction"], baseline=c["baseline"])
+    return ps
+
+
+def build_instructions(progspec, override=None):
+    import atomica as at
+
+    ins = dict(progspec["instructions"])
+    if override:
+        ins.update(override)
+    return at.ProgramInstructions(start_year=ins["start"], stop_year=ins["stop"], alloc={k: _ts(v) for k, v in ins["alloc"].items()} or None, capacity={k: _ts(v) for k, v in ins["capacity"].items()} or None, coverage={k: _ts(v) for k, v in ins["coverage"].items()} or None)
